@@ -47,6 +47,7 @@ var (
 	ObjectType       = reflect.TypeOf(ast.Object{})
 	RangeStmtType    = reflect.TypeOf(ast.RangeStmt{})
 	ScopeType        = reflect.TypeOf(ast.Scope{})
+	StarExprType     = reflect.TypeOf(ast.StarExpr{})
 
 	// Struct Pointers
 	CommentGroupPtrType = reflect.PtrTo(CommentGroupType)
@@ -60,6 +61,7 @@ var (
 	ObjectPtrType       = reflect.PtrTo(ObjectType)
 	RangeStmtPtrType    = reflect.PtrTo(RangeStmtType)
 	ScopePtrType        = reflect.PtrTo(ScopeType)
+	StarExprPtrType     = reflect.PtrTo(StarExprType)
 
 	// Interfaces
 	ExprType = reflect.TypeOf((*ast.Expr)(nil)).Elem()
